@@ -4,7 +4,7 @@
    order-preserving at-most-once delivery invariant, enabledness / termination after Stop. *)
 From Coq Require Import List Bool Arith Lia.
 From Verif.Model Require Import ConcCollector.
-From Verif.Proofs Require Import ConcCollector_lemmas ConcTcp_lemmas ConcCollFair_lemmas.
+From Verif.Proofs Require Import ConcCollector_lemmas ConcTcp_lemmas ConcCollFair_lemmas ConcTcp3_lemmas.
 Import ListNotations.
 
 (* ------------------------------------------------------------------------------------------ *)
@@ -436,4 +436,235 @@ Lemma udp_order_lemma : forall cfg dr sched i,
 Proof.
   intros cfg dr sched i s. destruct (uinv_reach cfg dr sched) as [_ _ _ _ [A _]]. fold s in A.
   eapply Sub_drop_tail. apply A.
+Qed.
+
+(* ------------------------------------------------------------------------------------------ *)
+(* enabledness (the ticker is NOT needed: UTick is not in the list) *)
+Definition uthreads (n g : nat) : list utid :=
+  [UStart; USock; UStop] ++ map USend (seq 0 n) ++ map UCl (seq 0 g).
+
+Lemma in_uthreads_send : forall n g i, i < n -> In (USend i) (uthreads n g).
+Proof. intros. unfold uthreads. simpl. right; right; right. apply in_or_app. left. apply in_map, in_seq. lia. Qed.
+Lemma in_uthreads_cl : forall n g j, j < g -> In (UCl j) (uthreads n g).
+Proof. intros. unfold uthreads. simpl. right; right; right. apply in_or_app. right. apply in_map, in_seq. lia. Qed.
+
+Ltac uen_glob t := exists t; split; [simpl; auto | unfold u_step; simpl; try discriminate].
+
+Lemma ucl_enabled : forall s g v, UInv s -> nth_error (u_cls s) g = Some v ->
+  (v_pc v = V0 -> u_stopped s = true) -> v_pc v <> VDone -> u_step true s (UCl g) <> None.
+Proof.
+  intros s g v [G C W M O] Hn H0 Hd. unfold u_step. rewrite Hn.
+  destruct M as [_ _ _ MA]. specialize (MA _ _ Hn).
+  destruct (v_pc v) eqn:E; try discriminate; try congruence.
+  - rewrite H0; auto. discriminate.
+  - destruct (nth_error (u_addrs s) (v_addr v)) eqn:E2.
+    + destruct (dec_ok (a_tpl u) (snd m)); discriminate.
+    + apply nth_error_None in E2. lia.
+Qed.
+
+Lemma udp_enabled_lemma : forall s, UInv s -> u_all_done s = false ->
+  exists t, In t (uthreads (length (u_addrs s)) (length (u_cls s))) /\ u_step true s t <> None.
+Proof.
+  intros s I N. pose proof I as [G C W M O].
+  unfold uglob_ok in G.
+  repeat (apply andb_true_iff in G; let G' := fresh "G" in destruct G as [G G']).
+  destruct (u_start s) eqn:Es; try (uen_glob UStart; rewrite Es; discriminate).
+  { (* S4 *) destruct (u_stopped s) eqn:Est; [uen_glob UStart; rewrite Es, Est; discriminate|].
+    destruct (u_stop s) eqn:Ep; simpl in *; try discriminate.
+    destruct (u_pub s) eqn:Epub; simpl in *; try discriminate.
+    uen_glob UStop. rewrite Ep, Epub. discriminate. }
+  destruct (u_stopped s) eqn:Est; simpl in *; try discriminate.
+  destruct (u_pub s) eqn:Epub; simpl in *; try discriminate.
+  destruct (u_open s) eqn:Eop; simpl in *; try discriminate.
+  destruct (u_sock s) eqn:Ek; simpl in *; try discriminate.
+  - uen_glob USock. rewrite Ek, Eop. discriminate.
+  - uen_glob USock. rewrite Ek. destruct (lookup i (u_clients s)); discriminate.
+  - (* K2: the select of handleUDPMessage *)
+    destruct M as [_ _ MS _]. rewrite Ek in MS. destruct MS as [_ [v [Hv _]]].
+    destruct (v_closed v) eqn:Ec; [uen_glob USock; rewrite Ek, Hv, Ec; discriminate|].
+    destruct (v_pc v) eqn:Epc; try (uen_glob USock; rewrite Ek, Hv, Ec, Epc; discriminate).
+    all: try (exists (UCl g); split;
+              [apply in_uthreads_cl; apply nth_error_Some; congruence
+              | eapply ucl_enabled; eauto; congruence]).
+    all: pose proof (forallb_nth _ _ _ _ _ C Hv) as K; unfold ucl_ok in K; rewrite Ec, Epc in K; discriminate.
+  - uen_glob USock. rewrite Ek. discriminate.
+  - (* socket loop gone *)
+    unfold u_all_done in N. rewrite Es, Ek in N. simpl in N.
+    destruct (forallb ucl_done (u_cls s)) eqn:F.
+    + destruct (forallb (fun a => match a_unsent a with [] => true | _ => false end) (u_addrs s)) eqn:F2.
+      * (* everything returned: wg.Wait() returns *)
+        destruct (u_stop s) eqn:Ep; simpl in *; try discriminate.
+        uen_glob UStop. rewrite Ep. unfold uwg_eq, usock_cnt in W. rewrite Es, Ek in W.
+        assert (sum (map ucnt (u_cls s)) = 0) as Z.
+        { apply sum_map_zero. intros x Hx. rewrite forallb_forall in F. specialize (F x Hx).
+          unfold ucl_done in F. unfold ucnt. destruct (v_pc x); try discriminate; reflexivity. }
+        rewrite W, Z. simpl. discriminate.
+      * destruct (forallb_false_nth _ _ _ F2) as [i [a [Hn Hd]]].
+        exists (USend i). split; [apply in_uthreads_send; apply nth_error_Some; congruence|].
+        unfold u_step. rewrite Epub, Hn. destruct (a_unsent a) as [|[m lost] r]; try discriminate.
+        destruct (lost || negb (u_open s)); discriminate.
+    + destruct (forallb_false_nth _ _ _ F) as [g [v [Hn Hd]]].
+      exists (UCl g). split; [apply in_uthreads_cl; apply nth_error_Some; congruence|].
+      eapply ucl_enabled; eauto. unfold ucl_done in Hd. destruct (v_pc v); congruence.
+Qed.
+
+(* terminated states are quiescent (also for the ticker) *)
+Lemma udp_done_quiet : forall dr s t, u_all_done s = true -> u_step dr s t = None.
+Proof.
+  intros dr s t H. unfold u_all_done in H.
+  repeat (apply andb_true_iff in H; let H' := fresh "H" in destruct H as [H H']).
+  destruct (u_start s) eqn:Es; try discriminate. destruct (u_sock s) eqn:Ek; try discriminate.
+  destruct (u_stop s) eqn:Ep; try discriminate.
+  destruct t; unfold u_step; rewrite ?Es, ?Ek, ?Ep; auto.
+  - destruct (nth_error (u_cls s) g) eqn:Hn; auto.
+    pose proof (forallb_nth _ _ _ _ _ H1 Hn) as K. unfold ucl_done in K. destruct (v_pc u); try discriminate; auto.
+  - destruct (nth_error (u_cls s) g) eqn:Hn; auto.
+    pose proof (forallb_nth _ _ _ _ _ H1 Hn) as K. unfold ucl_done in K. destruct (v_pc u); try discriminate; auto.
+  - destruct (u_pub s); auto. destruct (nth_error (u_addrs s) i) eqn:Hn; auto.
+    pose proof (forallb_nth _ _ _ _ _ H0 Hn) as K. simpl in K. destruct (a_unsent u); try discriminate; auto.
+Qed.
+
+Lemma udp_all_done_lemma : forall cfg dr sched,
+  let s := u_run dr sched (u_init cfg) in
+  u_all_done s = true ->
+  u_stop s = PDone /\ u_wg s = 0 /\ u_goroutines s = 0 /\ u_open s = false /\ u_clients s = [].
+Proof.
+  intros cfg dr sched s H. destruct (uinv_reach cfg dr sched) as [G C W M O]. fold s in G, C, W, M, O.
+  unfold u_all_done in H.
+  repeat (apply andb_true_iff in H; let H' := fresh "H" in destruct H as [H H']).
+  unfold uglob_ok in G. unfold uwg_eq, usock_cnt in W. unfold u_goroutines.
+  assert (sum (map ucnt (u_cls s)) = 0) as Z.
+  { apply sum_map_zero. intros x Hx. rewrite forallb_forall in H1. specialize (H1 x Hx).
+    unfold ucl_done in H1. unfold ucnt. destruct (v_pc x); try discriminate; reflexivity. }
+  assert (filter (fun v => negb (ucl_done v)) (u_cls s) = []) as Z2.
+  { clear - H1. induction (u_cls s); simpl in *; auto. apply andb_true_iff in H1. destruct H1 as [-> ?]. simpl. auto. }
+  assert (u_clients s = []) as Z3.
+  { destruct (u_clients s) as [|[k g] r] eqn:E; auto. destruct M as [_ B _ _].
+    destruct (B k g) as [v [E1 [E2 E3]]]. { rewrite E. simpl. rewrite Nat.eqb_refl. reflexivity. }
+    pose proof (forallb_nth _ _ _ _ _ H1 E1) as K. unfold ucl_done in K. destruct (v_pc v); discriminate. }
+  rewrite Z2, W, Z, Z3.
+  destruct (u_start s); try discriminate. destruct (u_sock s); try discriminate.
+  destruct (u_stop s); try discriminate. destruct (u_open s); simpl in *; try discriminate.
+  repeat split; auto.
+Qed.
+
+(* the wait-group equation in readable form, and wg = 0 iff everything registered has returned *)
+Definition u_wg_live (s : ustate) : nat :=
+  (match u_sock s with KNone | KDone => 0 | _ => 1 end) + length (filter (fun v => negb (ucl_done v)) (u_cls s)).
+Definition u_wg_pending (s : ustate) : nat := match u_start s with S2 | S3 => 1 | _ => 0 end.
+
+Lemma ucnt_filter : forall l, sum (map ucnt l) = length (filter (fun v => negb (ucl_done v)) l).
+Proof. induction l; simpl; auto. unfold ucnt at 1, ucl_done at 1. destruct (v_pc a); simpl; auto. Qed.
+
+Lemma udp_wg_equation_lemma : forall cfg dr sched,
+  let s := u_run dr sched (u_init cfg) in u_wg s = u_wg_live s + u_wg_pending s.
+Proof.
+  intros cfg dr sched s. destruct (uinv_reach cfg dr sched) as [G _ W _ _]. fold s in G, W.
+  unfold uwg_eq, usock_cnt in W. rewrite W, ucnt_filter. unfold u_wg_live, u_wg_pending.
+  unfold uglob_ok in G. destruct (u_start s), (u_sock s); simpl in *;
+    repeat rewrite ?andb_false_r, ?andb_false_l in G; try discriminate; lia.
+Qed.
+
+Lemma udp_wg_zero_iff_lemma : forall cfg dr sched,
+  let s := u_run dr sched (u_init cfg) in
+  u_pub s = true ->
+  (u_wg s = 0 <-> u_sock s = KDone /\ forall v, In v (u_cls s) -> v_pc v = VDone).
+Proof.
+  intros cfg dr sched s P. pose proof (udp_wg_equation_lemma cfg dr sched) as E. fold s in E. cbv zeta in E.
+  destruct (uinv_reach cfg dr sched) as [G _ _ _ _]. fold s in G.
+  unfold uglob_ok in G. unfold u_wg_live, u_wg_pending in E. split.
+  - intro Z. rewrite Z in E. split.
+    + destruct (u_start s), (u_sock s), (u_pub s); simpl in *;
+        repeat rewrite ?andb_false_r, ?andb_false_l in G; try discriminate; try reflexivity; lia.
+    + assert (length (filter (fun v => negb (ucl_done v)) (u_cls s)) = 0) as L0 by lia.
+      apply length_zero_iff_nil in L0. intros v Hv.
+      destruct (ucl_done v) eqn:D; [unfold ucl_done in D; destruct (v_pc v); try discriminate; reflexivity|].
+      assert (In v (filter (fun v => negb (ucl_done v)) (u_cls s))) as Hin by (apply filter_In; rewrite D; auto).
+      rewrite L0 in Hin. destruct Hin.
+  - intros [Hk Hl]. rewrite E, Hk in *.
+    assert (filter (fun v => negb (ucl_done v)) (u_cls s) = []) as ->.
+    { clear - Hl. induction (u_cls s); simpl in *; auto. unfold ucl_done at 1. rewrite (Hl a) by auto. simpl. auto. }
+    destruct (u_start s); simpl in *;
+      repeat rewrite ?andb_false_r, ?andb_false_l in G; try discriminate; reflexivity.
+Qed.
+
+(* ------------------------------------------------------------------------------------------ *)
+(* the number of client goroutines ever created is bounded by the number of datagrams: every
+   creation consumes one datagram read by the socket loop *)
+Definition utotal (cfg : list ucfg) : nat := sum (map (fun c => length (uc_msgs c)) cfg).
+Definition unsent_len (a : uaddr) : nat := length (a_unsent a).
+Definition ubound (cfg : list ucfg) (s : ustate) : Prop :=
+  length (u_cls s) + (match u_sock s with K1 _ _ => 1 | _ => 0 end) + length (u_dgq s)
+  + sum (map unsent_len (u_addrs s)) <= utotal cfg /\ length (u_addrs s) = length cfg.
+
+Lemma unumber_length : forall l n, length (unumber n l) = length l.
+Proof. induction l as [|[k b] r IH]; simpl; intros; auto. Qed.
+
+Lemma ubound_init : forall cfg, ubound cfg (u_init cfg).
+Proof.
+  intros. unfold ubound, utotal. simpl. rewrite map_length. split; auto.
+  rewrite map_map. unfold unsent_len. simpl.
+  assert (map (fun x => length (unumber 0 (uc_msgs x))) cfg = map (fun c => length (uc_msgs c)) cfg) as ->; auto.
+  apply map_ext. intros. apply unumber_length.
+Qed.
+
+Lemma ubound_step : forall cfg dr s t s', ubound cfg s -> u_step dr s t = Some s' -> ubound cfg s'.
+Proof.
+  intros cfg dr s t s' [B L] H. destruct s. unfold ubound in *. unfold u_step in H. simpl in H. simpl in B, L.
+  destruct t; step_cases H; simpl in *; rewrite ?length_upd; try (split; [lia|assumption]).
+  all: try rewrite app_length; simpl.
+  all: try match goal with
+       | Hn : nth_error ?l ?i = Some ?c |- context [sum (map unsent_len (upd ?l ?i ?x))] =>
+           let Hs := fresh "Hs" in
+           pose proof (sum_map_upd _ unsent_len _ _ _ x Hn) as Hs; unfold unsent_len at 2 4 in Hs; simpl in Hs
+       end.
+  all: try match goal with Hq : a_unsent _ = _ |- _ => rewrite Hq in *; simpl in * end.
+  all: split; [lia|assumption].
+Qed.
+
+Lemma uthreads_mono : forall n g g', g <= g' -> incl (uthreads n g) (uthreads n g').
+Proof.
+  intros n g g' H t Ht. unfold uthreads in *. simpl in *.
+  destruct Ht as [?|[?|[?|Ht]]]; auto. right; right; right.
+  apply in_app_or in Ht. apply in_or_app. destruct Ht as [?|Ht]; auto. right.
+  apply in_map_iff in Ht. destruct Ht as [j [<- Hj]]. apply in_map, in_seq. apply in_seq in Hj. lia.
+Qed.
+
+Definition UInvB (cfg : list ucfg) (s : ustate) : Prop := UInv s /\ ubound cfg s.
+
+Lemma udp_run_is_run : forall dr sched s, u_run dr sched s = run _ _ (u_step dr) sched s.
+Proof. reflexivity. Qed.
+
+Lemma uinvb_live : forall cfg s, UInvB cfg s -> u_all_done s = false ->
+  exists t, In t (uthreads (length cfg) (utotal cfg)) /\ u_step true s t <> None.
+Proof.
+  intros cfg s [I [B L]] N. destruct (udp_enabled_lemma s I N) as [t [Hin He]].
+  exists t. split; auto. rewrite L in Hin. eapply uthreads_mono; [|exact Hin]. lia.
+Qed.
+
+(* every fair schedule terminates: the exporters have sent everything, every goroutine has
+   returned, wg = 0, Stop has returned - without the ticker ever firing *)
+Lemma udp_fair_terminates_lemma : forall cfg rounds,
+  Forall (fun r => incl (uthreads (length cfg) (utotal cfg)) r) rounds ->
+  u_mu (u_init cfg) <= length rounds ->
+  u_all_done (u_run true (concat rounds) (u_init cfg)) = true.
+Proof.
+  intros cfg rounds Hf Hm. rewrite udp_run_is_run.
+  apply (f_fair_terminates ustate utid (u_step true) u_all_done u_mu (UInvB cfg) (uthreads (length cfg) (utotal cfg))); auto.
+  - intros. eapply u_mu_decreases; eauto.
+  - intros s t s' [I B] H. split; [eapply uinv_step | eapply ubound_step]; eauto.
+  - apply uinvb_live.
+  - intros s t _ H. apply udp_done_quiet; auto.
+  - split; [apply uinv_init | apply ubound_init].
+Qed.
+
+Lemma udp_progress_lemma : forall cfg sched,
+  let s := u_run true sched (u_init cfg) in
+  u_all_done s = false -> exists t, In t (uthreads (length cfg) (utotal cfg)) /\ u_step true s t <> None.
+Proof.
+  intros cfg sched s N. unfold s in *. rewrite udp_run_is_run in *.
+  apply (f_no_deadlock ustate utid (u_step true) u_all_done (UInvB cfg) (uthreads (length cfg) (utotal cfg))); auto.
+  - intros s0 t s' [I B] H. split; [eapply uinv_step | eapply ubound_step]; eauto.
+  - apply uinvb_live.
+  - split; [apply uinv_init | apply ubound_init].
 Qed.
